@@ -14,9 +14,14 @@ MAX_VIOLATIONS = 5
 
 
 # =========================================================================== model-checking step
-def mc_step(work, module, cfg, workers=8, timeout=900, xmx="6g", extra=()):
+def mc_step(work, module, cfg, workers=8, timeout=900, xmx="6g", extra=(), scope=None):
     """Run TLC on a model (not a trace).  A failure of the model itself is an infrastructure /
     specification problem (exit 2), never a verdict on the code."""
+    if scope is not None:
+        with open(work.path(cfg)) as f:
+            c = f.read()
+        with open(work.path(cfg), "w") as f:
+            f.write(re.sub(r"Scope = \d+", "Scope = %d" % scope, c))
     r = vlib.tlc_run(work.dir, module, work.path(cfg), workers=workers, timeout=timeout, xmx=xmx, extra=extra)
     if r["rc"] != 0:
         raise Infra("model %s/%s did not pass (rc=%s):\n%s" % (module, cfg, r["rc"], r["out"][-3000:]))
@@ -185,10 +190,14 @@ ASSUME_COMMON = [
 ]
 
 
+MC_GENERAL = ("ResponderMC.tla", "ResponderMC.cfg")
+MC_IMPL = ("ResponderImpl.tla", "ResponderImpl.cfg")
+
+
 def responder_check(prop, tier, seed, t0, check, scenarios, mc=(), level="model_checking", assumptions=(), san="asan", extra_cov=None):
     work = vlib.Work(prop)
     binp = vlib.build_responder(san)
-    mcs = [mc_step(work, m, c) for m, c in mc]
+    mcs = [mc_step(work, m, c, scope=1 if tier == "quick" else 2) for m, c in mc]
     tot, viol, known = run_campaign(prop, check, scenarios, seed, work, binp)
     rc = finish(prop, tier, seed, t0, level, check, tot, viol, known, mcs, scenarios, ASSUME_COMMON + list(assumptions), extra_cov)
     if rc == 0:
@@ -206,17 +215,25 @@ def c01(prop, tier, seed, t0):
                                         "the recorded trace must be complete and every transmitted frame well-formed and within the solicited bounds (Check=C02)"])
 
 
+def with_g1(scs, seed, tier, quick_limit):
+    import g1
+    g, info = g1.transition_scenarios(seed, limit=quick_limit if tier == "quick" else 40000, scope=1)
+    return scs + g, {"g1_transition_cover": info}
+
+
 def c02(prop, tier, seed, t0):
-    return responder_check(prop, tier, seed, t0, {"C02", "EQ"}, campaigns.campaign_c02(seed, tier),
+    return responder_check(prop, tier, seed, t0, {"C02", "EQ"}, campaigns.campaign_c02(seed, tier), mc=[MC_GENERAL],
                            assumptions=["determinism clause: twin interfaces with fresh-allocation fill 0xA5 / 0x5A must transmit identical bytes"])
 
 
 def c03(prop, tier, seed, t0):
-    return responder_check(prop, tier, seed, t0, {"C03"}, campaigns.campaign_c03(seed, tier))
+    scs, cov = with_g1(campaigns.campaign_c03(seed, tier), seed, tier, 300)
+    return responder_check(prop, tier, seed, t0, {"C03"}, scs, mc=[MC_IMPL], extra_cov=cov)
 
 
 def c05(prop, tier, seed, t0):
-    return responder_check(prop, tier, seed, t0, {"C05"}, campaigns.campaign_c05(seed, tier))
+    scs, cov = with_g1(campaigns.campaign_c05(seed, tier), seed, tier, 1200)
+    return responder_check(prop, tier, seed, t0, {"C05"}, scs, mc=[MC_GENERAL, MC_IMPL], extra_cov=cov)
 
 
 def c04(prop, tier, seed, t0):
@@ -224,11 +241,13 @@ def c04(prop, tier, seed, t0):
 
 
 def c06(prop, tier, seed, t0):
-    return responder_check(prop, tier, seed, t0, {"C06"}, campaigns.campaign_c06(seed, tier))
+    scs, cov = with_g1(campaigns.campaign_c06(seed, tier), seed, tier, 400)
+    return responder_check(prop, tier, seed, t0, {"C06"}, scs, mc=[MC_GENERAL, MC_IMPL], extra_cov=cov)
 
 
 def c07(prop, tier, seed, t0):
-    return responder_check(prop, tier, seed, t0, {"C07"}, campaigns.campaign_c07(seed, tier))
+    scs, cov = with_g1(campaigns.campaign_c07(seed, tier), seed, tier, 1200)
+    return responder_check(prop, tier, seed, t0, {"C07"}, scs, mc=[MC_GENERAL, MC_IMPL], extra_cov=cov)
 
 
 def c08(prop, tier, seed, t0):
@@ -236,7 +255,10 @@ def c08(prop, tier, seed, t0):
 
 
 def c09(prop, tier, seed, t0):
-    return responder_check(prop, tier, seed, t0, {"C09", "EQ"}, campaigns.campaign_c09(seed, tier))
+    import g1
+    hists, info = g1.state_cover_histories(seed, limit=600 if tier == "quick" else None)
+    scs = campaigns.campaign_c09(seed, tier) + campaigns.c09_from_histories(hists, seed)
+    return responder_check(prop, tier, seed, t0, {"C09", "EQ"}, scs, mc=[MC_GENERAL], extra_cov={"g1_state_cover": info})
 
 
 def c10(prop, tier, seed, t0):
